@@ -1605,7 +1605,7 @@ impl<'arena> PrettyFormatter<'arena> {
     }
 
     fn named_term(&self, term: TermId, field: &FieldName, inner: TermId) -> RcDoc<'arena> {
-        let payload = self.punning.term_payload(field, self.transparent_term_group(inner));
+        let payload = self.punning.term_payload_through(field, inner, |term| self.transparent_term_group(term));
         match payload {
             | Some(PunnedTermPayload::Variable) => RcDoc::text("= ").append(self.field(field)),
             | Some(PunnedTermPayload::Annotated { variable, classifier }) => {
@@ -1705,7 +1705,10 @@ impl<'arena> PrettyFormatter<'arena> {
     }
 
     fn named_pattern(&self, pattern: PatId, field: &FieldName, inner: PatId) -> RcDoc<'arena> {
-        match self.punning.pattern_payload(field, self.transparent_pattern_group(inner)) {
+        match self
+            .punning
+            .pattern_payload_through(field, inner, |inner| self.transparent_pattern_group(inner))
+        {
             | Some(PunnedPatternPayload::Variable) => RcDoc::text("= ").append(self.field(field)),
             | Some(PunnedPatternPayload::Annotated { variable, classifier }) => {
                 RcDoc::text("= ").append(self.field(field)).append(self.fragment_boundary(
@@ -1723,7 +1726,10 @@ impl<'arena> PrettyFormatter<'arena> {
     }
 
     fn projection_pattern(&self, pattern: PatId, field: &FieldName, inner: PatId) -> RcDoc<'arena> {
-        match self.punning.pattern_payload(field, self.transparent_pattern_group(inner)) {
+        match self
+            .punning
+            .pattern_payload_through(field, inner, |inner| self.transparent_pattern_group(inner))
+        {
             | Some(PunnedPatternPayload::Variable) => RcDoc::text("/").append(self.field(field)),
             | Some(PunnedPatternPayload::Annotated { variable, classifier }) => {
                 RcDoc::text("/").append(self.field(field)).append(self.fragment_boundary(
@@ -1956,7 +1962,9 @@ impl<'arena> PrettyFormatter<'arena> {
             |inner, (depth, (named, field))| {
                 let inner_last = inner.anchors.last;
                 let document = if depth == 0 {
-                    match self.punning.pattern_payload(field, binder) {
+                    match self.punning.pattern_payload_through(field, binder, |binder| {
+                        self.transparent_pattern_group(binder)
+                    }) {
                         | Some(PunnedPatternPayload::Variable) => {
                             RcDoc::text("= ").append(self.field(field))
                         }
